@@ -251,6 +251,14 @@ func (p *Pipe) GateWrites() (release func()) {
 	}
 }
 
+// LetNewWritesPass keeps the writes already parked at the gate parked (until the release func of
+// GateWrites is called) and lets every later write through at once.
+func (p *Pipe) LetNewWritesPass() {
+	p.mu.Lock()
+	p.writeGate = nil
+	p.mu.Unlock()
+}
+
 // WaitParkedWrite waits until n writes are parked at the gate.
 func (p *Pipe) WaitParkedWrite(n int, timeout time.Duration) bool {
 	deadline := time.Now().Add(timeout)
